@@ -1,6 +1,7 @@
 import NanoVerif.Props.C13
 import NanoVerif.Props.C11
 import NanoVerif.Props.C14
+import NanoVerif.Proofs.GlueSvg
 /-
 C12 — maximum_color adds colour tables without altering the font.
 The pipeline re-enters nanoemoji with `width = 0` and a per-glyph viewBox `0 0 advance (asc−desc)`
@@ -27,5 +28,18 @@ theorem advance_preserved (asc desc : Int) (adv : Nat) (hH : 0 < asc - desc) :
     simp [this]
   have hm : max (0 : Int) (adv : Int) = (adv : Int) := max_eq_right (Int.natCast_nonneg adv)
   simp only [advanceWidth, hne, ↓reduceIte, e, r, hm]
+
+/-- **C12.2 (`glue_together._copy_svg`)** the target font is re-ordered so that the donor's SVG table can be copied in unchanged: with the donor's
+document records in ascending glyph order, every glyph the SVG table draws ends up at exactly the glyph id the donor's documents use for it … -/
+theorem svg_gids_stable (target : List String) (svg : List (Nat × String)) (res : List String)
+    (hasc : (svg.map (·.1)).Pairwise (· < ·)) (h : copySvgOrder target svg = some res) :
+    ∀ p ∈ svg, res[p.1]? = some p.2 :=
+  copySvg_places target svg res hasc h
+
+/-- … and the target keeps exactly its own glyphs (nothing dropped, nothing duplicated, nothing added) -/
+theorem svg_glue_keeps_glyphs (target : List String) (svg : List (Nat × String)) (res : List String)
+    (hT : target.Nodup) (hS : (svg.map (·.2)).Nodup) (hsub : ∀ n ∈ svg.map (·.2), n ∈ target)
+    (h : copySvgOrder target svg = some res) : res.Perm target :=
+  copySvg_perm target svg res hT hS hsub h
 
 end NanoVerif.C12
